@@ -9,3 +9,4 @@ for p in $props; do
   echo "$p rc=$rc $(( $(date +%s)-s ))s :: $(echo "$out" | tail -1)"
   echo "$out" | grep -E "^(VIOLATION|UNDECIDED|VACUITY|CRASH|REGRESSION)" | head -8
 done
+python3-vt tools/mkdomains.py --check
